@@ -192,7 +192,7 @@ def parse_msm(msg: object) -> tuple:
     :rtype: tuple
     """
 
-    if not msg.ismsm:
+    if not msg.ismsm or not hasattr(msg, "NCell"):  # incl. reserved MSM numbers
         return None
 
     meta = {}
